@@ -138,7 +138,7 @@ func genC10(seed uint64, run int, tier string) *RunSpec {
 	r := NewRand(seed, run)
 	g := NewGen(r)
 	spec := &RunSpec{Property: "C10", Family: "c10-history", Seed: seed, Run: run}
-	cat := genPrograms(r, g, 1+r.Intn(3), true, append(append([]string{}, Entries...), BaseEntries...))
+	cat := genPrograms(r, g, 1+r.Intn(3), true, append(append(append([]string{}, Entries...), BaseEntries...), AssignEntries...))
 	// distinct operations (program x entry x data), each with its own tag
 	nd := 2 + r.Intn(4)
 	var distinct []OpSpec
